@@ -45,7 +45,7 @@ class FieldS:
 
 
 class PathM:
-    __slots__ = ("fmt", "rep", "opts", "fs", "subs", "damage", "layout", "foreign", "n_writes")
+    __slots__ = ("fmt", "rep", "opts", "fs", "subs", "damage", "layout", "foreign", "n_writes", "subtol")
 
     def __init__(self, fmt, rep, opts, fs, subs, layout=None, foreign=None):
         self.fmt = fmt
@@ -57,6 +57,7 @@ class PathM:
         self.layout = layout
         self.foreign = foreign
         self.n_writes = 1
+        self.subtol = None
 
 
 def value_array(spec, shape):
@@ -254,6 +255,28 @@ def op_mkvariant(st, o):
         m["subs"] = m.get("subs", [])[:-1] if m.get("subs") else []
         if not src["mesh"].get("subs"):
             return "skipped"
+    elif ch == "subs_moved":
+        # the same names, one border moved by a single cell (a difference far below any absolute tolerance
+        # at nanometre scale): the files of the two fields differ only in that corner of the side-car / table
+        if not src["mesh"].get("subs") or spec.get("pre") or m.get("intcorners"):
+            return "skipped"
+        pmin = [min(a, b) for a, b in zip(m["p1"], m["p2"])]
+        pmax = [max(a, b) for a, b in zip(m["p1"], m["p2"])]
+        cell = [(b - a) / k for a, b, k in zip(pmin, pmax, m["n"])]
+        subs = [[nm, list(lo), list(hi)] for nm, lo, hi in m["subs"]]
+        nm, lo, hi = subs[o.get("which", 0) % len(subs)]
+        lo, hi = [min(a, b) for a, b in zip(lo, hi)], [max(a, b) for a, b in zip(lo, hi)]
+        ax = o.get("ax", 0) % len(lo)
+        if hi[ax] + 0.5 * cell[ax] < pmax[ax]:
+            hi[ax] = hi[ax] + cell[ax]
+        elif lo[ax] - 0.5 * cell[ax] > pmin[ax]:
+            lo[ax] = lo[ax] - cell[ax]
+        elif hi[ax] - lo[ax] > 1.5 * cell[ax]:
+            hi[ax] = hi[ax] - cell[ax]
+        else:
+            return "skipped"
+        subs[o.get("which", 0) % len(subs)] = [nm, lo, hi]
+        m["subs"] = subs
     elif ch == "unit":
         spec["unit"] = None if spec.get("unit") else "T"
     st.stats.probe("twin_field")
@@ -424,6 +447,8 @@ def op_write(st, o):
     pm = PathM(fmt, rep, opts, fsh, _expected_subs(old, fsh, opts), layout)
     if old is not None:
         pm.n_writes = old.n_writes + 1
+    if fmt == "hdf5":
+        pm.subtol = {k: sr.tolerance_factor for k, sr in obj.mesh.subregions.items()}
     st.paths[rel] = pm
     return "written"
 
@@ -626,6 +651,9 @@ def check_read_hdf5(st, g, pm):
     if g.mesh.bc != mm.bc:
         bad.append(f"bc {g.mesh.bc!r} written {mm.bc!r}")
     bad += _cmp_subs(g, list(mm.subs), mm, "read-back")
+    for k, t in (getattr(pm, "subtol", None) or {}).items():
+        if k in g.mesh.subregions and g.mesh.subregions[k].tolerance_factor != t:
+            bad.append(f"subregion {k!r} tolerance_factor {g.mesh.subregions[k].tolerance_factor!r} written {t!r}")
     if g.nvdim != fsh.nvdim:
         bad.append(f"nvdim {g.nvdim} written {fsh.nvdim}")
     gv = None if g.vdims is None else list(g.vdims)
@@ -865,6 +893,7 @@ def op_copy(st, o):
     st.fs.copy(rel, to)
     npm = PathM(pm.fmt, pm.rep, pm.opts, pm.fs, pm.subs, pm.layout, pm.foreign)
     npm.damage = pm.damage
+    npm.subtol = pm.subtol
     if pm.fmt in ("ovf", "vtk"):
         if o.get("with_sidecar") and st.fs.exists(_sidecar(rel)):
             st.fs.copy(_sidecar(rel), _sidecar(to))
